@@ -807,3 +807,10 @@ package fzf
 //@ ensures !result ==> maphas(t.selected, item.text.Index) == old(maphas(t.selected, item.text.Index)) && len(t.selected) == old(len(t.selected))
 //@ ensures old(len(t.selected)) <= t.multi ==> len(t.selected) <= t.multi
 //@ ensures forall(k, -2147483648, 2147483648, k != item.text.Index ==> maphas(t.selected, k) == old(maphas(t.selected, k)))
+
+// ---------------------------------------------------------------- rendering helpers (C14)
+// getScrollbar: size and position of the scrollbar for `total` entries of `perLine` lines each in a window of
+// `height` lines.  For any list size and window height it divides only by positive numbers.
+//@ func getScrollbar
+//@ property C14
+//@ requires perLine >= 1 && total >= 0 && height >= 0
